@@ -10,6 +10,7 @@ import (
 	"bytes"
 	"encoding/json"
 	"fmt"
+	"net"
 	"runtime"
 	"sort"
 	"strconv"
@@ -34,6 +35,7 @@ type wreq struct {
 	Kind    string
 	Raw     []byte
 	Kills   bool // the server is expected to close the connection after answering this one
+	Remote  int  // which peer the connection carrying this request comes from (see remoteAddr)
 	EndConn bool // the client closes the connection after this request (the next one opens a new one)
 	Head    bool
 	Cookie  string // flash cookie class carried
@@ -573,6 +575,14 @@ func normDate(b []byte) []byte {
 	}
 }
 
+// remoteAddr: peer 0 is the drive package's default (203.0.113.7), peer 1 another host.
+func remoteAddr(i int) net.Addr {
+	if i == 1 {
+		return &net.TCPAddr{IP: net.ParseIP(altPeerIP), Port: 40001}
+	}
+	return nil
+}
+
 // lresp is a leniently parsed response. The history's responses are not this engine's subject
 // (their well-formedness is C07's: e.g. Redirect().WithInput() puts a NUL byte into Set-Cookie),
 // so the output stream is only split, by Content-Length, not validated.
@@ -661,11 +671,11 @@ func serveScript(w *drive.Wire, reqs []wreq) served {
 		for j < len(reqs) {
 			in.Write(reqs[j].Raw)
 			j++
-			if reqs[j-1].Kills || reqs[j-1].EndConn {
+			if reqs[j-1].Kills || reqs[j-1].EndConn || (j < len(reqs) && reqs[j].Remote != reqs[i].Remote) {
 				break
 			}
 		}
-		out, _ := w.Serve(in.Bytes(), nil)
+		out, _ := w.Serve(in.Bytes(), remoteAddr(reqs[i].Remote))
 		sv.conns++
 		rs, prob := splitResponses(out)
 		if prob != "" {
@@ -705,10 +715,19 @@ type isoCase struct {
 	Cfg     isoCfg
 	History []wreq
 	Probe   probeSpec
+	// HistRemote / ProbeRemote: the peers the history's and the probe's connections come from
+	HistRemote, ProbeRemote int
+	// Intruders (overlap cases): requests served on other connections while the probe, which
+	// carries hold=1, is parked inside its handler. The reference run parks and releases the
+	// probe with nothing in between.
+	Intruders []wreq
 }
 
 func genIsoCase(r *gen.Rand) isoCase {
 	ic := genIsoCase0(r)
+	if r.Chance(1, 3) {
+		ic.HistRemote, ic.ProbeRemote = r.Intn(2), r.Intn(2)
+	}
 	if r.Chance(1, 12) {
 		ic.Probe = genFileProbe(r.Split(), r.Intn(nSendFileVariants))
 	} else if r.Chance(1, 8) {
@@ -729,28 +748,73 @@ func genIsoCase0(r *gen.Rand) isoCase {
 }
 
 func judgeIso(e *ev.Env, c *ev.Case, ic isoCase) {
-	probeReq := wreq{Kind: "probe", Raw: ic.Probe.Raw, Cookie: ic.Probe.Class, Kills: ic.Probe.ViaEH}
+	probeReq := wreq{Kind: "probe", Raw: ic.Probe.Raw, Cookie: ic.Probe.Class, Kills: ic.Probe.ViaEH, Remote: ic.ProbeRemote}
+	overlap := ic.Intruders != nil
+	// serveProbe serves the probe; in overlap cases it is parked in its handler meanwhile the
+	// intruders are served from this goroutine.
+	serveProbe := func(w *drive.Wire, s *isoSink, intruders []wreq) served {
+		if !overlap {
+			return serveScript(w, []wreq{probeReq})
+		}
+		s.holdAt, s.release = make(chan struct{}), make(chan struct{})
+		done := make(chan served, 1)
+		go func() { done <- serveScript(w, []wreq{probeReq}) }()
+		select {
+		case <-s.holdAt:
+			if len(intruders) > 0 {
+				isv := serveScript(w, intruders)
+				e.Stat("intruder_requests", int64(isv.responses))
+			}
+			s.release <- struct{}{}
+			return <-done
+		case sv := <-done:
+			sv.problem = "the probe was not parked: " + sv.problem
+			return sv
+		}
+	}
 
 	// reference: the probe as first request of a fresh app
 	freshPools()
 	fapp, fs := isoBuild(ic.Cfg)
-	fsv := serveScript(drive.NewWire(fapp), []wreq{probeReq})
+	fsv := serveProbe(drive.NewWire(fapp), fs, nil)
 	// after the history. The process-wide pools are emptied again: what the reference run left in
 	// them (e.g. a schema decoder that has already seen the probe's struct type) must not prime the
 	// history run.
 	freshPools()
 	happ, hs := isoBuild(ic.Cfg)
 	script := append(append([]wreq(nil), ic.History...), probeReq)
+	for i := range script[:len(script)-1] {
+		script[i].Remote = ic.HistRemote
+	}
 	if ic.Probe.OwnConn && len(script) > 1 {
 		script[len(script)-2].EndConn = true
 	}
-	hsv := serveScript(drive.NewWire(happ), script)
+	var hsv served
+	if overlap {
+		hw := drive.NewWire(happ)
+		pre := serveScript(hw, script[:len(script)-1])
+		hsv = serveProbe(hw, hs, ic.Intruders)
+		hsv.conns += pre.conns
+		if pre.problem != "" {
+			hsv.problem = pre.problem
+		}
+	} else {
+		hsv = serveScript(drive.NewWire(happ), script)
+	}
 	e.Eval(1)
 	e.Stat("requests", int64(len(script)+1))
 	e.Stat("connections", int64(hsv.conns))
 
 	detail := func(extra map[string]any) map[string]any {
-		d := map[string]any{"cfg": ic.Cfg.String(), "probe": string(ic.Probe.Raw), "probe_hex": hexs(ic.Probe.Raw), "probe_cookie": ic.Probe.Class}
+		d := map[string]any{"cfg": ic.Cfg.String(), "probe": string(ic.Probe.Raw), "probe_hex": hexs(ic.Probe.Raw), "probe_cookie": ic.Probe.Class,
+			"history_peer": ic.HistRemote, "probe_peer": ic.ProbeRemote}
+		if overlap {
+			var ik []string
+			for _, h := range ic.Intruders {
+				ik = append(ik, firstLine(h.Raw))
+			}
+			d["served_while_probe_was_open"] = ik
+		}
 		var hk []string
 		for _, h := range ic.History {
 			hk = append(hk, h.Kind+"/"+h.Cookie)
@@ -1147,6 +1211,90 @@ func runIsolation(e *ev.Env) {
 			ins := append(sep, []byte("ret="+gen.Pick(r, predeclaredNames))...)
 			ps.Raw = append(append(append([]byte(nil), line...), ins...), ps.Raw[len(line):]...)
 		}
+		ic.Probe = ps
+		judgeIso(e, c, ic)
+	})
+	// directed family: the history's connections come from one peer, the probe's from the other;
+	// only one of them is a trusted proxy
+	e.Cases("peers", e.N(300, 8000), func(c *ev.Case) {
+		r := c.R
+		ic := isoCase{Cfg: isoCfg{Custom: r.Chance(1, 3), PassLocals: r.Bool(), Immutable: r.Chance(1, 4)}}
+		ic.Cfg.widen(r)
+		ic.Cfg.Trust = r.Range(1, 2)
+		ic.Cfg.Touch = r.Chance(3, 4)
+		ic.HistRemote = r.Intn(2)
+		ic.ProbeRemote = 1 - ic.HistRemote
+		fwd := func(q *reqSpec) {
+			q.Hdr = append(q.Hdr, [2]string{"X-Forwarded-For", gen.Pick(r, []string{"6.6.6.6", "192.0.2.77, 198.51.100.9"})},
+				[2]string{"X-Forwarded-Proto", "https"})
+			if r.Bool() {
+				q.Hdr = append(q.Hdr, [2]string{"X-Forwarded-Host", "shop.example.org"})
+			}
+		}
+		for i := r.Range(1, 3); i > 0; i-- {
+			tag := "h" + strconv.Itoa(len(ic.History)) + "x"
+			q := &reqSpec{Host: gen.Pick(r, hosts), Target: gen.Pick(r, []string{"/base", "/locals/" + tag, "/getonly", "/redir/" + tag + "?n=1"})}
+			fwd(q)
+			ic.History = append(ic.History, wreq{Kind: "forwarded", Raw: q.raw(), Cookie: ckNone})
+			if r.Chance(1, 3) {
+				ic.History[len(ic.History)-1].EndConn = true
+			}
+		}
+		ps := genProbeX(r.Split(), "", "")
+		// the probe carries forwarding headers of its own
+		line := bytes.Index(ps.Raw, []byte("\r\nHost: "))
+		ins := []byte("\r\nX-Forwarded-For: 9.9.9.9\r\nX-Forwarded-Proto: https\r\nX-Forwarded-Host: forged.example")
+		ps.Raw = append(append(append([]byte(nil), ps.Raw[:line]...), ins...), ps.Raw[line:]...)
+		ic.Probe = ps
+		judgeIso(e, c, ic)
+	})
+	// directed family: other requests are served while the probe is open (parked in its handler)
+	e.Cases("overlap", e.N(300, 8000), func(c *ev.Case) {
+		r := c.R
+		ic := isoCase{Cfg: isoCfg{Custom: r.Chance(1, 3), PassLocals: r.Bool(), Immutable: r.Chance(1, 4)}}
+		ic.Cfg.widen(r)
+		fv := r.Intn(nSendFileVariants)
+		for i := r.Intn(3); i > 0; i-- {
+			tag := "h" + strconv.Itoa(len(ic.History)) + "x"
+			if r.Bool() {
+				q := &reqSpec{Target: "/file/" + strconv.Itoa(fv) + "?f=" + gen.Pick(r, []string{"a", "b", "x"})}
+				ic.History = append(ic.History, wreq{Kind: "sendfile", Raw: q.raw(), Cookie: ckNone})
+			} else {
+				ic.History = append(ic.History, genHistoryReq(r.Split(), tag, ic.Cfg.Custom))
+			}
+		}
+		ic.Intruders = []wreq{}
+		for i := r.Range(1, 4); i > 0; i-- {
+			tag := "i" + strconv.Itoa(len(ic.Intruders)) + "x"
+			switch r.Intn(3) {
+			case 0:
+				q := &reqSpec{Target: "/file/" + strconv.Itoa(fv) + "?f=x"} // a file that does not exist
+				ic.Intruders = append(ic.Intruders, wreq{Kind: "sendfile-missing", Raw: q.raw(), Cookie: ckNone})
+			case 1:
+				q := &reqSpec{Target: "/file/" + strconv.Itoa(r.Intn(nSendFileVariants)) + "?f=" + gen.Pick(r, []string{"a", "b", "x"})}
+				ic.Intruders = append(ic.Intruders, wreq{Kind: "sendfile", Raw: q.raw(), Cookie: ckNone})
+			default:
+				h := genHistoryReq(r.Split(), tag, ic.Cfg.Custom)
+				h.Kills = false
+				if h.Kind == "malformed" || h.Kind == "oversized-header" {
+					h.EndConn = true
+				}
+				ic.Intruders = append(ic.Intruders, h)
+			}
+		}
+		var ps probeSpec
+		if r.Chance(2, 3) {
+			ps = genFileProbe(r.Split(), fv)
+		} else {
+			ps = genProbeX(r.Split(), "", "")
+		}
+		// park the probe inside its handler
+		line := ps.Raw[:bytes.Index(ps.Raw, []byte(" HTTP/1.1\r\n"))]
+		sep := "?"
+		if bytes.Contains(line, []byte("?")) {
+			sep = "&"
+		}
+		ps.Raw = append(append(append([]byte(nil), line...), []byte(sep+"hold=1")...), ps.Raw[len(line):]...)
 		ic.Probe = ps
 		judgeIso(e, c, ic)
 	})
